@@ -21,9 +21,8 @@ import (
 // result is compared with a fresh computation from the wire message; a final
 // sweep observes everything.
 
-type c16 struct {
-	st *kit.Stats
-
+// c16Obj is one wrapped block under observation.
+type c16Obj struct {
 	raw   []byte         // the block's exact serialisation
 	ref   *wire.MsgBlock // independent parse, used only for recomputation
 	own   *wire.MsgBlock // the message handed to / held by the wrapper
@@ -33,27 +32,34 @@ type c16 struct {
 	got   []*bchutil.Tx       // wrapped transactions obtained so far
 	gotIx []int
 
+	height      int32
+	calledAll   bool
+	calledTx    bool
+	calledBytes bool
+}
+
+type c16 struct {
+	st *kit.Stats
+
+	// several wrappers live side by side: a cache or buffer shared between
+	// wrapper objects would corrupt an earlier one when a later one is used
+	objs    []*c16Obj
+	*c16Obj // the object the current operation addresses
+
 	sraw []byte
 	sref *wire.MsgTx
 	stx  *bchutil.Tx
 	sidx int
 
-	height int32
-
 	maxSteps, steps int
 	swept           bool
-	txBeforeAll     bool
-	allBeforeTx     bool
-	calledAll       bool
-	calledTx        bool
-	calledBytes     bool
 	accessors       int
 	faultsFired     int
+	usedTx          bool
 }
 
 func (s *c16) Start(r *kit.Rng, cfg map[string]int64) {
-	s.seen = map[int]*bchutil.Tx{}
-	s.height = bchutil.BlockHeightUnknown
+	s.c16Obj = &c16Obj{} // placeholder until the first block exists
 	s.sidx = bchutil.TxIndexUnknown
 	if r == nil {
 		return
@@ -133,6 +139,20 @@ func c16Block(r *kit.Rng, st *kit.Stats) *wire.MsgBlock {
 	default:
 		n = r.Range(5, 40)
 	}
+	if r.Chance(1, 30) {
+		// around the 1-byte / 3-byte transaction-count boundary
+		n = []int{252, 253, 254, 300}[r.Intn(4)]
+		st.Probe("block-with-3-byte-transaction-count")
+		for i := 0; i < n; i++ {
+			tx := wire.NewMsgTx(1)
+			tx.AddTxIn(&wire.TxIn{Sequence: uint32(i), SignatureScript: r.Bytes(r.Intn(3))})
+			if i%3 == 0 {
+				tx.AddTxOut(&wire.TxOut{Value: int64(i), PkScript: []byte{0x51}})
+			}
+			_ = blk.AddTransaction(tx)
+		}
+		return blk
+	}
 	for i := 0; i < n; i++ {
 		tx := c16Tx(r, uint32(i))
 		for k := 0; k < 4 && !stableTx(tx); k++ {
@@ -183,7 +203,7 @@ func (s *c16) Gen(r *kit.Rng) (kit.Op, bool) {
 		return kit.Op{}, false
 	}
 	s.steps++
-	if s.blk == nil && s.stx == nil && s.steps == 1 {
+	if len(s.objs) == 0 && s.stx == nil && s.steps == 1 {
 		if r.Chance(1, 6) {
 			tx := c16Tx(r, 7)
 			for !stableTx(tx) {
@@ -210,6 +230,21 @@ func (s *c16) Gen(r *kit.Rng) (kit.Op, bool) {
 	if s.steps > s.maxSteps {
 		return kit.Op{K: "sweep"}, true
 	}
+	// a further wrapper next to the existing ones
+	if len(s.objs) > 0 && len(s.objs) < 3 && r.Chance(1, 8) {
+		blk := c16Block(r, s.st)
+		ctor := r.Intn(4)
+		op := kit.Op{K: "block", D: kit.Hex(serBlock(blk)), N: []int64{int64(ctor)}}
+		if ctor == 2 {
+			op.S = simio.DrawBenign(r).String()
+		}
+		return op, true
+	}
+	oi := 0
+	if len(s.objs) > 0 {
+		oi = r.Intn(len(s.objs))
+		s.c16Obj = s.objs[oi]
+	}
 	// reader faults are independent of the wrapped object
 	if r.Chance(1, 6) {
 		src := s.raw
@@ -217,7 +252,7 @@ func (s *c16) Gen(r *kit.Rng) (kit.Op, bool) {
 		if src == nil || (s.sraw != nil && r.Chance(1, 2)) {
 			src, isTx = s.sraw, 1
 		}
-		if isTx == 0 && len(s.ref.Transactions) > 0 && r.Chance(1, 3) {
+		if isTx == 0 && s.ref != nil && len(s.ref.Transactions) > 0 && len(s.ref.Transactions) < 60 && r.Chance(1, 3) {
 			src, isTx = serTx(s.ref.Transactions[r.Intn(len(s.ref.Transactions))]), 1
 		}
 		return kit.Op{K: "faultread", D: kit.Hex(src), N: []int64{isTx}, S: simio.DrawDestructive(r, len(src)).String()}, true
@@ -228,31 +263,31 @@ func (s *c16) Gen(r *kit.Rng) (kit.Op, bool) {
 	n := len(s.ref.Transactions)
 	switch r.Intn(14) {
 	case 0:
-		return kit.Op{K: "b.hash"}, true
+		return kit.Op{K: "b.hash", H: oi}, true
 	case 1:
-		return kit.Op{K: "b.bytes"}, true
+		return kit.Op{K: "b.bytes", H: oi}, true
 	case 2, 3, 4:
-		return kit.Op{K: "b.tx", N: []int64{c16Index(r, n)}}, true
+		return kit.Op{K: "b.tx", H: oi, N: []int64{c16Index(r, n)}}, true
 	case 5, 6:
-		return kit.Op{K: "b.txhash", N: []int64{c16Index(r, n)}}, true
+		return kit.Op{K: "b.txhash", H: oi, N: []int64{c16Index(r, n)}}, true
 	case 7:
-		return kit.Op{K: "b.txs"}, true
+		return kit.Op{K: "b.txs", H: oi}, true
 	case 8:
-		return kit.Op{K: "b.txloc"}, true
+		return kit.Op{K: "b.txloc", H: oi}, true
 	case 9:
-		return kit.Op{K: "b.msg"}, true
+		return kit.Op{K: "b.msg", H: oi}, true
 	case 10:
 		if r.Chance(1, 2) {
-			return kit.Op{K: "b.height"}, true
+			return kit.Op{K: "b.height", H: oi}, true
 		}
-		return kit.Op{K: "b.setheight", N: []int64{int64(int32(r.U32()))}}, true
+		return kit.Op{K: "b.setheight", H: oi, N: []int64{int64(int32(r.U32()))}}, true
 	case 11:
-		return kit.Op{K: "b.reparse"}, true
+		return kit.Op{K: "b.reparse", H: oi}, true
 	default:
 		if len(s.got) == 0 {
-			return kit.Op{K: "b.tx", N: []int64{c16Index(r, n)}}, true
+			return kit.Op{K: "b.tx", H: oi, N: []int64{c16Index(r, n)}}, true
 		}
-		return kit.Op{K: []string{"t.hash", "t.index", "t.msgtx"}[r.Intn(3)], H: r.Intn(len(s.got))}, true
+		return kit.Op{K: []string{"t.hash", "t.index", "t.msgtx"}[r.Intn(3)], H: oi, N: []int64{int64(r.Intn(len(s.got)))}}, true
 	}
 }
 
@@ -276,9 +311,10 @@ func toI64(m map[string]int) map[string]int64 {
 func (s *c16) Apply(o kit.Op) *kit.Violation {
 	switch o.K {
 	case "block":
-		if s.blk != nil || s.stx != nil {
+		if len(s.objs) >= 3 || s.stx != nil {
 			return nil
 		}
+		s.c16Obj = &c16Obj{seen: map[int]*bchutil.Tx{}, height: bchutil.BlockHeightUnknown}
 		raw := o.Data()
 		var ref, own wire.MsgBlock
 		if ref.Deserialize(bytes.NewReader(raw)) != nil || own.Deserialize(bytes.NewReader(raw)) != nil {
@@ -311,6 +347,10 @@ func (s *c16) Apply(o kit.Op) *kit.Violation {
 			s.own = &own
 			s.blk = bchutil.NewBlockFromBlockAndBytes(&own, append([]byte(nil), raw...))
 		}
+		s.objs = append(s.objs, s.c16Obj)
+		if len(s.objs) > 1 {
+			s.st.Probe("several-wrappers-alive")
+		}
 		if len(ref.Transactions) == 0 {
 			s.st.Probe("zero-transaction-block")
 		}
@@ -323,7 +363,7 @@ func (s *c16) Apply(o kit.Op) *kit.Violation {
 			}
 		}
 	case "tx":
-		if s.blk != nil || s.stx != nil {
+		if len(s.objs) > 0 || s.stx != nil {
 			return nil
 		}
 		raw := o.Data()
@@ -387,9 +427,10 @@ func (s *c16) Apply(o kit.Op) *kit.Violation {
 	if s.stx != nil {
 		return s.applyTx(o)
 	}
-	if s.blk == nil {
+	if o.H < 0 || o.H >= len(s.objs) {
 		return nil
 	}
+	s.c16Obj = s.objs[o.H]
 	s.accessors++
 	n := len(s.ref.Transactions)
 	switch o.K {
@@ -436,14 +477,8 @@ func (s *c16) Apply(o kit.Op) *kit.Violation {
 		if err != nil {
 			return kit.V("range:valid-index-rejected", "%s(%d) on a %d-transaction block: %v", o.K, i, n, err)
 		}
-		if !s.calledTx {
-			s.calledTx = true
-			if !s.calledAll {
-				s.txBeforeAll = true
-			} else {
-				s.allBeforeTx = true
-			}
-		}
+		s.calledTx = true
+		s.usedTx = true
 		if o.K == "b.txhash" {
 			want := s.ref.Transactions[i].TxHash()
 			if h == nil || *h != want {
@@ -456,6 +491,7 @@ func (s *c16) Apply(o kit.Op) *kit.Violation {
 		txs := s.blk.Transactions()
 		if !s.calledAll {
 			s.calledAll = true
+			s.usedTx = true
 			if s.calledTx {
 				s.st.Probe("sparse-then-complete")
 			}
@@ -518,10 +554,11 @@ func (s *c16) Apply(o kit.Op) *kit.Violation {
 			return kit.V("reparse:not-equivalent", "a block re-parsed from its bytes is not equivalent to the original")
 		}
 	case "t.hash", "t.index", "t.msgtx":
-		if o.H < 0 || o.H >= len(s.got) {
+		k := int(o.Arg(0))
+		if k < 0 || k >= len(s.got) {
 			return nil
 		}
-		tx, i := s.got[o.H], s.gotIx[o.H]
+		tx, i := s.got[k], s.gotIx[k]
 		switch o.K {
 		case "t.hash":
 			want := s.ref.Transactions[i].TxHash()
@@ -598,23 +635,36 @@ func (s *c16) sweep() *kit.Violation {
 		}
 		return nil
 	}
-	if s.blk == nil {
-		return nil
+	for oi, ob := range s.objs {
+		n := len(ob.ref.Transactions)
+		seq := []kit.Op{{K: "b.hash"}, {K: "b.txloc"}, {K: "b.bytes"}, {K: "b.hash"}, {K: "b.msg"}, {K: "b.height"}}
+		for i := 0; i < n; i++ {
+			seq = append(seq, kit.Op{K: "b.txhash", N: []int64{int64(i)}}, kit.Op{K: "b.tx", N: []int64{int64(i)}})
+		}
+		seq = append(seq, kit.Op{K: "b.txs"}, kit.Op{K: "b.txs"}, kit.Op{K: "b.txloc"}, kit.Op{K: "b.reparse"},
+			kit.Op{K: "b.tx", N: []int64{int64(n)}}, kit.Op{K: "b.tx", N: []int64{-1}})
+		for k := 0; k < n; k++ {
+			seq = append(seq, kit.Op{K: "t.hash", N: []int64{int64(k)}}, kit.Op{K: "t.index", N: []int64{int64(k)}}, kit.Op{K: "t.msgtx", N: []int64{int64(k)}})
+		}
+		// twice: the second pass sees what the first one cached, and every
+		// object is looked at again after the others have been used
+		for pass := 0; pass < 2; pass++ {
+			for _, o := range seq {
+				o.H = oi
+				if v := s.Apply(o); v != nil {
+					v.Detail = fmt.Sprintf("final sweep (pass %d), wrapper %d, %s: %s", pass+1, oi, o.String(), v.Detail)
+					return v
+				}
+			}
+		}
 	}
-	n := len(s.ref.Transactions)
-	seq := []kit.Op{{K: "b.hash"}, {K: "b.txloc"}, {K: "b.bytes"}, {K: "b.hash"}, {K: "b.msg"}, {K: "b.height"}}
-	for i := 0; i < n; i++ {
-		seq = append(seq, kit.Op{K: "b.txhash", N: []int64{int64(i)}}, kit.Op{K: "b.tx", N: []int64{int64(i)}})
-	}
-	seq = append(seq, kit.Op{K: "b.txs"}, kit.Op{K: "b.txs"}, kit.Op{K: "b.txloc"}, kit.Op{K: "b.reparse"},
-		kit.Op{K: "b.tx", N: []int64{int64(n)}}, kit.Op{K: "b.tx", N: []int64{-1}})
-	for k := range s.got {
-		seq = append(seq, kit.Op{K: "t.hash", H: k}, kit.Op{K: "t.index", H: k}, kit.Op{K: "t.msgtx", H: k})
-	}
-	for _, o := range seq {
-		if v := s.Apply(o); v != nil {
-			v.Detail = "final sweep, " + o.String() + ": " + v.Detail
-			return v
+	// and once more the first object, after all others were swept
+	if len(s.objs) > 1 {
+		for _, o := range []kit.Op{{K: "b.bytes"}, {K: "b.txloc"}, {K: "b.hash"}, {K: "b.reparse"}} {
+			if v := s.Apply(o); v != nil {
+				v.Detail = "final sweep, wrapper 0 after the others: " + v.Detail
+				return v
+			}
 		}
 	}
 	return nil
@@ -622,9 +672,9 @@ func (s *c16) sweep() *kit.Violation {
 
 // Check: the wrapped message itself must never be modified by an accessor.
 func (s *c16) Check() *kit.Violation {
-	if s.blk != nil && s.own != nil {
-		if !bytes.Equal(serBlock(s.own), s.raw) {
-			return kit.V("message-modified", "the underlying wire message no longer serialises to the original bytes")
+	for i, ob := range s.objs {
+		if ob.own != nil && !bytes.Equal(serBlock(ob.own), ob.raw) {
+			return kit.V("message-modified", "the wire message under wrapper %d no longer serialises to the original bytes", i)
 		}
 	}
 	if s.stx != nil {
@@ -636,7 +686,7 @@ func (s *c16) Check() *kit.Violation {
 }
 
 func (s *c16) NonTrivial() bool {
-	return s.swept && s.accessors >= 3 && (s.blk != nil && (s.calledTx || s.calledAll) || s.stx != nil || s.faultsFired > 0)
+	return s.swept && s.accessors >= 3 && (s.usedTx || s.stx != nil || s.faultsFired > 0)
 }
 
 var _ = fmt.Sprint
